@@ -33,6 +33,8 @@ class Built:
         self.canary_lines = {}
         self.prelude_files = []
         self.vspec_files = []
+        self.skipped = []
+        self.noterm = []
 
     def text(self):
         return '\n'.join(self.lines) + '\n'
@@ -52,7 +54,7 @@ class Built:
         return None
 
 
-def build(repo, verif, canary=False, only_files=None):
+def build(repo, verif, canary=False, only_files=None, degrade=(), extern=()):
     b = Built()
     src, log = extract.extract_all(os.path.join(repo, 'src'))
     b.log = log
@@ -92,7 +94,9 @@ def build(repo, verif, canary=False, only_files=None):
     for f in extract.FILES:
         if only_files is not None and f not in only_files:
             continue
-        w = weave.weave_file(f, src[f], fnspecs, blockitems, canary=canary)
+        w = weave.weave_file(f, src[f], fnspecs, blockitems, canary=canary, degrade=degrade, extern=extern)
+        b.skipped += w.skipped
+        b.noterm += [(f, n) for n in w.noterm]
         base = len(b.lines)
         b.lines.append('// ==== ' + f)
         b.origin.append(None)
